@@ -794,7 +794,7 @@ def quic_rederivation_probe(ctx, q):
 
 
 # ====================================================================== entry points
-def quic_connection_probe(ctx, scale=1):
+def quic_connection_probe(ctx, scale=1, fixed=None):
     """Keys as actually installed for a whole QUIC connection: a handshake from the independent sender
     (harness/gen_quic.py; the ClientHello offers the four suites in a random order, the ServerHello picks one) is run
     through the real main.run(); afterwards the session's Handshake / Application decryptors and header-protection keys
@@ -805,11 +805,13 @@ def quic_connection_probe(ctx, scale=1):
     import wire
     import tlexport.main as tmain
     o = ctx.oracle.setdefault("rfc-quic-connection", {"runs": 0, "violations": 0})
-    for i in range(ctx.n(16, 300) * scale):
-        seed = ctx.rng.getrandbits(48)
+    todo = fixed if fixed is not None else [
+        (ctx.rng.getrandbits(48), ["shuffled", "default", "suite-first"][i % 3], list(gen_quic.SUITES)[i % 4])
+        for i in range(ctx.n(16, 300) * scale)]
+    for seed, order, suite in todo:
         rng = random.Random(seed)
         feats = {"retry": False, "zero_rtt": False, "key_updates": 0, "new_cid": False, "prefix_cid": False,
-                 "offer_order": ["shuffled", "default", "suite-first"][i % 3], "suite": list(gen_quic.SUITES)[i % 4]}
+                 "offer_order": order, "suite": suite}
         c, f = gen_quic.random_connection(rng, 0, features=feats)
         r = tool.run(wire.pcapng(c.items), "\n".join(c.keylog_lines()) + "\n")
         o["runs"] += 1
@@ -894,6 +896,9 @@ def replay(ctx, obj):
     elif kind == "quic-rederive":
         quic_rederivation_probe(ctx, QuicImpl())
         ctx.failures += [{"what": k["what"], "case": case, "expected": None, "actual": None} for k in ctx.known]
+    elif kind == "quic-connection":
+        f = case["features"]
+        quic_connection_probe(ctx, fixed=[(case["seed"], f["offer_order"], f["suite"])])
     elif kind == "mkinfo":
         from tlexport.quic.quic_key_generation import make_info
         lab, n = bytes.fromhex(case["label"]), case["length"]
